@@ -73,7 +73,7 @@ pub fn check_stream(
 ) {
     let api = rng.usize_below(3);
     let rk = if rng.chance(1, 3) { ReaderKind::random(rng) } else { ReaderKind::Slice };
-    let sink = SharedSink::new();
+    let sink = SharedSink::varied(ctx.index ^ w.bytes.len() as u64, w.output.len());
     let obs = sut::new_obs(u64::MAX);
     let (c, input) = match api {
         0 => (
